@@ -1,8 +1,9 @@
 ---------------------------- MODULE Trace_IoPaths ----------------------------
 (* Validates that every recorded way of reading a file agrees with the full native read (C13). *)
-EXTENDS IoPaths, TraceBase
-VARIABLES l, bad, drift, nchk, file, canon
-vars == <<l, bad, drift, nchk, file, canon>>
+EXTENDS IoPaths, TraceBase, ScanIterBase
+VARIABLES l, bad, drift, nchk, file, canon,
+          scanrows       \* checksums of the rows delivered by a plain front-to-back scan of the current file
+vars == <<l, bad, drift, nchk, file, canon, scanrows>>
 NoFile == [fmt |-> "none", variant |-> "", file |-> "", convert |-> FALSE]
 NoCanon == [w |-> 0, h |-> 0, pix |-> <<>>, ok |-> FALSE]
 Key == file.fmt \o ":" \o file.variant
@@ -21,7 +22,7 @@ SubVerdict(ev) ==
        ELSE IF ev.pix = Crop(canon.pix, canon.w, ev.x, ev.y, ev.w, ev.h) THEN {} ELSE {V("P_SubImageIsCrop", cause, Key, info)}
 
 Verdict(ev) ==
-    IF ~canon.ok /\ ev.e \in {"Info", "Dev", "Sub", "View", "Small", "Conv", "Scan", "Any", "Truth"} /\ ev.e # "Sub"
+    IF ~canon.ok /\ ev.e \in {"Info", "Dev", "Sub", "View", "Small", "Conv", "Scan", "Any", "Truth", "ScanWalk"} /\ ev.e # "Sub"
     THEN {}                 \* the canonical read itself failed (reported at the Fault)
     ELSE CASE ev.e = "Info"  -> IF ev.w = canon.w /\ ev.h = canon.h THEN {} ELSE {V("P_InfoMatches", "None", Key, [info |-> <<ev.w, ev.h>>, image |-> <<canon.w, canon.h>>])}
            [] ev.e = "Dev"   -> IF ev.w = canon.w /\ ev.h = canon.h /\ ev.pix = canon.pix THEN {} ELSE {V("P_DevicesAgree", "None", Key \o ":" \o ev.dev, <<ev.w, ev.h>>)}
@@ -33,6 +34,12 @@ Verdict(ev) ==
            [] ev.e = "Conv"  -> IF ev.pix = ev.expect THEN {} ELSE {V("P_ConvertIsColorConvert", IF IsTiledTiff THEN "tiled-tiff-read_and_convert" ELSE "None", Key \o ":" \o ev.type, "read_and_convert_image differs from color_convert of the native image")}
            [] ev.e = "Scan"  -> IF ~ev.threw /\ ev.w = canon.w /\ ev.h = canon.h /\ ev.pix = canon.pix THEN {}
                                 ELSE {V("P_ScanlineAgrees", IF ev.threw /\ IsTiledTiff THEN "tiled-tiff-scanline-unsupported" ELSE IF ev.threw /\ IsRle THEN "rle-scanline-unsupported" ELSE "None", Key, [threw |-> ev.threw])}
+           \* a walk of the scanline iterator (dereference some positions twice, pass others without dereferencing): ScanIter.tla
+           [] ev.e = "ScanWalk" -> LET exp == P_Rows(ev.ops) IN
+                                   IF ev.threw THEN {V("P_ScanlineAgrees", "None", Key \o ":walk", [ops |-> ev.ops, threw |-> TRUE])}
+                                   ELSE IF Len(ev.got) = Len(exp) /\ \A i \in 1..Len(exp) : ev.got[i][1] = exp[i] /\ exp[i] + 1 \in DOMAIN scanrows /\ ev.got[i][2] = scanrows[exp[i] + 1]
+                                   THEN {} ELSE {V("P_ScanlineAgrees", "None", Key \o ":walk", [ops |-> ev.ops, expected_rows |-> exp, got |-> [i \in 1..Len(ev.got) |-> ev.got[i][1]]])}
+           [] ev.e = "ScanRows" -> {}
            [] ev.e = "Any"   -> IF ~ev.threw /\ ev.w = canon.w /\ ev.h = canon.h /\ ev.pix = canon.pix THEN {} ELSE {V("P_AnyImageAgrees", "None", Key, [threw |-> ev.threw, index |-> ev.index])}
            [] ev.e = "Fault" -> {V("P_NoFault", IF file.fmt = "bmp" /\ file.variant \in {"rle4", "rle8"} THEN "bmp-rle-partial-read" ELSE "None", Key, ev.kind)}
            \* (extension, not a clause of C13) a file produced by an independent encoder from known pixels decodes to those pixels
@@ -40,15 +47,16 @@ Verdict(ev) ==
            [] ev.e \in {"File", "Canon", "EndFile", "End"} -> {}
            [] OTHER -> {V("UnknownEvent", "None", ev.e, l)}
 
-Init == l = 1 /\ bad = <<>> /\ drift = <<>> /\ nchk = 0 /\ file = NoFile /\ canon = NoCanon
+Init == l = 1 /\ bad = <<>> /\ drift = <<>> /\ nchk = 0 /\ file = NoFile /\ canon = NoCanon /\ scanrows = <<>>
 Step == /\ l <= NTr
         /\ bad' = MergeBad(bad, l, Verdict(Tr[l]))
         /\ drift' = drift
         /\ file' = IF Tr[l].e = "File" THEN [fmt |-> Tr[l].fmt, variant |-> Tr[l].variant, file |-> Tr[l].file, convert |-> Tr[l].convert] ELSE file
         /\ canon' = IF Tr[l].e = "File" THEN NoCanon ELSE IF Tr[l].e = "Canon" THEN [w |-> Tr[l].w, h |-> Tr[l].h, pix |-> Tr[l].pix, ok |-> TRUE] ELSE canon
-        /\ nchk' = nchk + (IF Tr[l].e \in {"Info", "Dev", "Sub", "View", "Small", "Conv", "Scan", "Any"} THEN 1 ELSE 0)
+        /\ scanrows' = IF Tr[l].e = "File" THEN <<>> ELSE IF Tr[l].e = "ScanRows" THEN Tr[l].rows ELSE scanrows
+        /\ nchk' = nchk + (IF Tr[l].e \in {"Info", "Dev", "Sub", "View", "Small", "Conv", "Scan", "Any", "ScanWalk"} THEN 1 ELSE 0)
         /\ l' = l + 1
-Fin  == /\ l = NTr + 1 /\ WriteOut(bad, drift, nchk) /\ l' = l + 1 /\ UNCHANGED <<bad, drift, nchk, file, canon>>
+Fin  == /\ l = NTr + 1 /\ WriteOut(bad, drift, nchk) /\ l' = l + 1 /\ UNCHANGED <<bad, drift, nchk, file, canon, scanrows>>
 Next == Step \/ Fin
 Spec == Init /\ [][Next]_vars
 =============================================================================
